@@ -301,7 +301,55 @@ def run_e2e(rep, tier, P):
             if len(samples) < 4:
                 samples.append(dict(desc, expected=exp[:2], got=[list(g[:4]) for g in got[:2]]))
     rep.add_cov(e2e_cases=len(jobs), e2e_ok=n_ok, e2e_samples=samples)
+    sweep_line_lengths(rep, tier, exe, work)
     return len(jobs)
+
+
+def sweep_line_lengths(rep, tier, exe, work):
+    """Every physical line length in a dense range (and around every power of two up to 2^16): a comment line of
+    exactly that length stands before an erroneous line; a reader that mishandles one particular length (buffer
+    boundaries) glues or splits lines and every later line number is off."""
+    import concurrent.futures
+    dense = 4300 if tier == "quick" else 12000
+    special = sorted({v for k in range(9, 17) for v in (2 ** k - 2, 2 ** k - 1, 2 ** k, 2 ** k + 1)} | {20000, 69999})
+    chunks = [list(range(a, min(a + 430, dense))) for a in range(0, dense, 430)] + [special]
+    jobs = []
+    for ci, lens in enumerate(chunks):
+        d = "%s/len%d" % (work, ci)
+        os.makedirs(d)
+        lines = [HEAD.strip()]
+        exp = []
+        for j, L in enumerate(lens):
+            # a comment line of exactly L characters (L < 2: blank / single blank), then an erroneous line
+            lines.append("" if L == 0 else (" " if L == 1 else "--" + "x" * (L - 2)))
+            lines.append("q%d: MachineInteger := undefLen%d;" % (j, L))
+            exp.append((len(lines), "undefLen%d" % L, L))
+        open(d + "/main.as", "w").write("\n".join(lines) + "\n")
+        jobs.append((d, exp))
+
+    def one(j):
+        d, exp = j
+        rc, out, err = C.run(C.aldor_base_args(exe) + ["-Mno-emax", "main.as"], cwd=d, env=C.aldor_env(), timeout=300)
+        return j, rc, out + err
+    n = 0
+    with concurrent.futures.ThreadPoolExecutor(C.NCPU) as ex:
+        for (d, exp), rc, text in ex.map(one, jobs):
+            got = {}
+            for g in parse_diags(text):
+                m = re.search(r"identifier `(\w+)'", g[4])
+                if m:
+                    got[m.group(1)] = g
+            for line, ident, L in exp:
+                n += 1
+                g = got.get(ident)
+                if g is None or g[2] != line:
+                    rep.violation("after a physical line of exactly %d characters the next line's diagnostic is %s, expected line %d"
+                                  % (L, ("reported at line %d column %d" % (g[2], g[3])) if g else "missing", line),
+                                  {"line_length": L, "expected_line": line, "got": list(g[:4]) if g else None,
+                                   "how": "comment line of that length directly before `qN: MachineInteger := undefLen<L>;`",
+                                   "cmd": "aldor -Mno-emax main.as"})
+                    break
+    rep.add_cov(line_lengths_swept=n)
 
 
 # ------------------------------------------------------------------ the real call sequence of include.c
